@@ -108,8 +108,10 @@ class Encrypt(Machine):
                           "hash": "sha-256", "out": dirs[0], "entry": s.choice(["lib", "lib_reuse", "lib_reuse"]),
                           "ctx": "path", "stale": False}
                     last_enc = op
-                elif r < 0.95:
+                elif r < 0.94:
                     op = {"kind": "restart", "i": i}
+                elif r < 0.97:
+                    op = {"kind": "fork", "i": i, "fw": fws[0][0], "key": keys[0], "n": s.randint(1, 3)}
                 else:
                     op = {"kind": "clock", "i": i, "jump": s.choice([-3600.0, -1.0, 0.0, 86400.0])}
             elif r < 0.55 or last_enc is None:
@@ -131,8 +133,10 @@ class Encrypt(Machine):
             elif r < 0.82:
                 op = {"kind": "create_with_info", "i": i, "dir": s.choice(dirs), "form": s.choice(["file", "raw"]),
                       "fmt": s.choice(["yaml", "json"]), "alg": None}
-            elif r < 0.92:
+            elif r < 0.90:
                 op = {"kind": "restart", "i": i}
+            elif r < 0.94 and prop == "C14":
+                op = {"kind": "fork", "i": i, "fw": s.choice(fws)[0], "key": keys[0], "n": s.randint(1, 3)}
             else:
                 op = {"kind": "clock", "i": i, "jump": s.choice([-3600.0, -1.0, 0.0, 86400.0])}
             ops.append(op)
@@ -197,6 +201,8 @@ class Encrypt(Machine):
                 model["since_clock_back"] = True
             host.log_line({"clock": op["jump"]})
             return []
+        if k == "fork":
+            return self._fork(host, model, op, prop)
         if k == "enc":
             return self._enc(host, model, op, faults, prop)
         if k == "geninfo":
@@ -354,6 +360,81 @@ class Encrypt(Machine):
             model["dirs"][op["out"]] = {"fw": op["fw"], "key": op["key"], "kid": op["kid"], "hash": op["hash"],
                                         "info": info, "digest": digest_b, "size": len(plain), "full": True}
         model["_abstract"] = ("enc", op["entry"], op["key"], len(plain) > 16)
+        return vs
+
+    # -- fork of the running interpreter -------------------------------------------------------------------------
+    def _fork(self, host, model, op, prop):
+        """A build that fans out: the running interpreter forks and the child encrypts with the same key.  The child
+        inherits every bit of process state (module globals, `random`, cached objects); what it does *not* share with
+        the parent is the kernel's entropy, so the simulated stream is re-keyed in the child.  IVs published by the
+        child join the history of that key."""
+        import os
+        import pickle
+
+        if prop != "C14":
+            return []
+        from ..seams import Entropy
+        from ..prng import derive
+
+        ex = model["_extra"]
+        plaintext = model["fws"][op["fw"]]
+        ctx = host.path("keys")
+        r, w = os.pipe()
+        pid = os.fork()
+        if pid == 0:
+            status = 0
+            try:
+                os.close(r)
+                host.entropy = Entropy(derive(host.seed, "fork-child", op["i"]))
+                out = []
+                for _ in range(op["n"]):
+                    def run():
+                        from suit_generator.suit_encrypt_script_base import SuitDigestAlgorithms, SuitKWAlgorithms
+                        import importlib
+
+                        encr = model.get("enc_obj") or importlib.import_module("ncs.encrypt_script").suit_encryptor_factory()
+                        return encr.encrypt_and_generate(plaintext, op["key"], 24, ctx, SuitDigestAlgorithms("sha-256"),
+                                                         SuitKWAlgorithms("direct"), world.KMS_SCRIPT)
+
+                    o = host.tool(run, kind="encrypt_lib_forked")
+                    out.append((o.cls, o.value if o.ok else None))
+                with os.fdopen(w, "wb") as fh:
+                    fh.write(pickle.dumps(out))
+            except BaseException:  # noqa: B036
+                status = 3
+            finally:
+                os._exit(status)
+        os.close(w)
+        with os.fdopen(r, "rb") as fh:
+            data = fh.read()
+        os.waitpid(pid, 0)
+        try:
+            results = pickle.loads(data)
+        except Exception:  # noqa: BLE001
+            return []
+        host.log_line({"fork": op["i"], "outcomes": [c for c, _ in results]})
+        vs = []
+        seen = model["ivs"].setdefault(op["key"], {})
+        key = model["keys"][op["key"]]
+        for cls, val in results:
+            if cls != "ok" or val is None:
+                continue
+            ciphertext, tag, info, digest_b, plen = val
+            try:
+                iv, prot = read_info(info)[:2]
+            except Exception:  # noqa: BLE001
+                continue
+            ex["encryptions_ok"] += 1
+            ex["enc_in_forked_child"] = ex.get("enc_in_forked_child", 0) + 1
+            if iv in seen:
+                vs.append(violation("C14", "iv-reuse", op["i"],
+                                    f"IV {iv.hex()} published for key {op['key']} at op {seen[iv]} and again in a forked child "
+                                    f"of op {op['i']}"))
+            if cose.aesgcm_decrypt(key, iv, ciphertext, tag, cose.enc_structure(prot)) != plaintext:
+                vs.append(violation("C14", "published-iv-not-used", op["i"], "forked child: ciphertext does not authenticate under the published IV"))
+            seen[iv] = f"{op['i']}(forked child)"
+        model["_abstract"] = ("fork", len(results))
+        model["_nontrivial"] = True
         return vs
 
     # -- generate-info ------------------------------------------------------------------------------------------
